@@ -129,6 +129,16 @@ MUTANTS = [
      [("src/detect.rs", "\t\tErr(None) => Ok(false),", "\t\tErr(None) => Err(io::Error::new(io::ErrorKind::InvalidData, \"no match\")),")]),
     ("r22-depth-unconfigured", "violations", "R22", "C18", "R18.2", "shared ignore_value helper forgets set_max_depth",
      [("src/msgpack.rs", "\tde.set_max_depth(DEPTH_LIMIT);\n\tde::IgnoredAny::deserialize(&mut de).map(drop)", "\tlet _ = DEPTH_LIMIT;\n\tde::IgnoredAny::deserialize(&mut de).map(drop)")]),
+    ("r21-never-spent", "violations", "R21", "C08", "R08.1", "enum one-shot state never leaves Fresh",
+     [("src/toml.rs", "mem::replace(&mut self.usage, Usage::Spent)", "mem::replace(&mut self.usage, Usage::Fresh)")]),
+    ("r21-marker-error-ignored", "violations", "R21", "C03", "R03.1", "YAML document marker's write error swallowed in the helper",
+     [("src/yaml.rs", "\t\twriteln!(&mut self.writer, \"---\")?;\n\t\tOk(&mut self.writer)", "\t\tlet _ = writeln!(&mut self.writer, \"---\");\n\t\tOk(&mut self.writer)")]),
+    ("r29-exit-code-zero", "violations", "R29", "C13", "R13.1", "shared diagnostic helper exits 0",
+     [("src/bail.rs", "const FAILURE_EXIT_CODE: i32 = 1;", "const FAILURE_EXIT_CODE: i32 = 0;")]),
+    ("r29-write-unguarded", "violations", "R29", "C16", "R16.1", "one wrapper method bypasses the guarded helper",
+     [("src/pipecheck.rs", "\t\tself.guarded(|w| w.write_all(buf))", "\t\tself.inner.write_all(buf)")]),
+    ("r29-wrong-kind", "violations", "R29", "C16", "R16.2", "extension trait tests the wrong ErrorKind",
+     [("src/pipecheck.rs", "if err.kind() == io::ErrorKind::BrokenPipe {", "if err.kind() == io::ErrorKind::WriteZero {")]),
     ("r9-result-ignored", "violations", "R9", "C09", "R09.2", "the first row's format is returned whatever its trial says",
      [("src/detect.rs", "\t\tif input_matches(input.borrow_mut())? {\n\t\t\treturn Ok(Some(format));\n\t\t}\n", "\t\tlet _ = input_matches(input.borrow_mut())?;\n\t\treturn Ok(Some(format));\n")]),
 ]
